@@ -648,6 +648,37 @@ def check_storage_tracker(rep: Report, ix) -> None:
         rep.violation("C08.storage-pairing", f"{ff.ref}::end_writing", f"finalize must call self.storage.end_writing exactly once on every path (found {sorted(cnt)})", line=ff.node.lineno)
 
 
+def thorough_selftest(rep: Report, minimum: int = 9) -> None:
+    """thorough tier: run the checker's own mutation corpus (mutants/<pid>.json) on scratch
+    copies of the analysed tree; a mutant that does not behave as recorded makes the checker
+    unreliable -> analysis error (exit 2), never a pass.  Skipped inside the self-test itself
+    and when the analysed tree has unlisted findings (twins could not exit 0 then)."""
+    import os
+
+    if rep.tier != "thorough" or os.environ.get("PDELINT_SELFTEST"):
+        return
+    from ..core import load_known
+    from ..selftest import run_selftest
+
+    known = {k["key"] for k in load_known() if k.get("property") == rep.pid and k.get("status") == "known"}
+    if any(f.key not in known for f in rep.findings):
+        rep.note("mutation self-test skipped: the analysed tree has findings that are not listed as known")
+        return
+    res = run_selftest(rep.pid, jobs=max(1, (os.cpu_count() or 2) // 2))
+    bad = [r for r in res if not r["ok"]]
+    for r in res:
+        rep.oblige(f"selftest:{r['name']}", r["ok"], r.get("why") or r.get("expect"))
+    rep.extra["selftest"] = {
+        "mutants": len(res),
+        "as_expected": len(res) - len(bad),
+        "fire": sum(1 for r in res if r.get("expect") == "fire"),
+        "silent": sum(1 for r in res if r.get("expect") == "silent"),
+    }
+    rep.floor("mutants in the self-test corpus", len(res), minimum)
+    if bad:
+        raise AnalysisError("mutation self-test failed: " + "; ".join(f"{r['name']}: {r.get('why')}" for r in bad[:5]))
+
+
 def check(tier: str) -> Report:
     rep = Report("C08", tier, "other", "static: control-flow graph queries (dominance, post-dominance, path counting, reachability) + reaching definitions")
     rep.explanation = (
@@ -671,4 +702,5 @@ def check(tier: str) -> Report:
         "the number of frames floor(T/D)+1 for arbitrary D/dt is a floating-point question and is not decided",
     ]
     rep.note("not decided: frame counts for incommensurate D/dt (float arithmetic of the interrupt schedule and of the per-segment step rounding)")
+    thorough_selftest(rep)
     return rep
